@@ -413,9 +413,10 @@ func (in *Interp) callFunc(fn *ssa.Function, args []Value, binds []Value) (ret V
 		if done {
 			return r
 		}
-		if next.Index <= block.Index && fr.symIter != nil {
+		// back edge: a new iteration of the loop headed by next starts; loops nested in it start afresh
+		if fr.symIter != nil && next.Dominates(block) {
 			for k := range fr.symIter {
-				if k > next.Index {
+				if k != next.Index && next.Dominates(fn.Blocks[k]) {
 					delete(fr.symIter, k)
 				}
 			}
